@@ -95,8 +95,9 @@ REST_GRAMMAR = {
     "<digit>": srange(string.digits),
     "<nobr-string>": ["<nobr-char>", "<nobr-char><nobr-string>"],
     # Exclude tab in <nobr-char> since otherwise, title can get too long (counts more than one character)
+    # Like in general text, * (inline emphasis that needs to be closed) is excluded
     "<nobr-char>": list(
-        OrderedSet(srange(string.printable)) - OrderedSet(srange("\n\r\t_{}`|"))
+        OrderedSet(srange(string.printable)) - OrderedSet(srange("\n\r\t_{}`|*"))
     ),
     "<title-first-char>": list(
         OrderedSet(srange(string.printable))
